@@ -3,7 +3,7 @@
    Part 2: the cache invariant and the refinement to the cache-free
    specification.  Part 3: consequences stated on histories. *)
 From Coq Require Import ZArith List Bool Lia.
-From Sky Require Import Result G_cache M_Cache S_Cache.
+From Sky Require Import Result Num G_cache M_Cache S_Cache.
 Import ListNotations.
 Open Scope Z_scope.
 
@@ -92,6 +92,12 @@ Proof. unfold ns2_no_cache. destruct o; split; intros; congruence. Qed.
 Lemma K_ns2_reset_on_new_trial : ns2_reset_on_new_trial = None.
 Proof. reflexivity. Qed.
 Lemma K_ns2_reset_on_evaluate : ns2_reset_on_evaluate = None.
+Proof. reflexivity. Qed.
+
+(* SigOverBkgPDFRatio.get_gradient, case 2: a fresh zero array receives sgrad / b
+   (the arrays handed out by the signal PDF are not written to) *)
+Lemma K_sob_grad_target_fresh v : sob_grad_target_fresh v = v. Proof. reflexivity. Qed.
+Lemma K_sob_grad_case2 {T} (N : Num T) sgrad b : sob_grad_case2 N sgrad b = ndiv N sgrad b.
 Proof. reflexivity. Qed.
 
 (* DataField memo of a global-fit-parameter dependent field *)
